@@ -148,6 +148,21 @@ func liWorldGen(r *Run, rng *Rng, w *liWorld, steps int) {
 			tip = bn
 			bn++
 			r.Count("branch:directed-odd-index-rollback")
+			// directed: one info update whose ninth write statement (a node of the L1 info tree) fails; then a VerifyBatches event
+			// whose own row fails: each time the block must fail as a whole and be retried
+			for _, d := range []struct {
+				k   int
+				evs string
+			}{{9, mk(1)}, {1001, fmt.Sprintf("vb;0;2;%d;%s;%s;%s", rng.Intn(1000), hx(rng.Bytes(32)), hx0(common.BytesToHash(rng.Bytes(32))), hx(rng.Bytes(20)))}} {
+				if o := w.exec(r, fmt.Sprintf("blk! %d %d %s", bn, d.k, d.evs)); o != "ok" {
+					if o2 := w.exec(r, fmt.Sprintf("blk %d %s", bn, d.evs)); o2 != "ok" {
+						r.Fail("[C07] retrying a well-formed L1 block after a storage fault did not succeed: "+o2, append([]string{"new"}, w.lines...))
+					}
+				}
+				tip = bn
+				bn++
+			}
+			r.Count("branch:directed-node-and-row-faults")
 			// directed: a block with one VerifyBatches event while the rollup exit tree's root table cannot be read (a transient
 			// fault at the "is this a new value" lookup): the block must fail and be retried — never be accepted without its event
 			{
